@@ -1,0 +1,13 @@
+//go:build !verif
+// +build !verif
+
+package m3
+
+import m3thrift "github.com/uber-go/tally/v4/m3/thrift/v2"
+
+// verifState is empty without the verif build tag.
+type verifState struct{}
+
+func (r *reporter) verifCharge(size int32) {}
+
+func (r *reporter) verifEmit(mets []m3thrift.Metric) {}
